@@ -51,8 +51,8 @@ Print Assumptions C30_roundtrip_psnp.
 
 (* NewCSNPs / NewPSNPs, for any number of LSP entries and any maxPDULen: no panic (no slice or index
    out of range, no bad make), every PDU built decodes back to itself, and - as soon as one entry
-   fits into a PDU - the PDUs carry exactly the given entries (CSNPs: sorted by system id and
-   pseudonode id; PSNPs: in the given order). *)
+   fits into a PDU - the PDUs carry exactly the given entries (CSNPs: sorted by LSP ID: system id,
+   pseudonode id, LSP number; PSNPs: in the given order). *)
 Theorem C30_new_csnps : forall (src : list N) (es : list lspentry) (maxlen : Z) (llc : list N) (h : header),
   len_is src 7 -> Forall wf_entry es -> length llc = 3%nat -> h_type h = 25 ->
   exists cs, new_csnps src es maxlen = Ok cs /\
